@@ -79,6 +79,8 @@ pub struct Compiler {
     scope_index: usize,
     pub filters: Vec<Rc<CompiledFunction>>,
     pub filter_end: Option<Rc<CompiledFunction>>,
+    // scope index of the filter statement being compiled, if any
+    filter_scope: Option<usize>,
 }
 
 impl Compiler {
@@ -104,6 +106,7 @@ impl Compiler {
             scope_index: 0,
             filters: Vec::new(),
             filter_end: None,
+            filter_scope: None,
         }
     }
 
@@ -409,7 +412,9 @@ impl Compiler {
                 }
             }
             Statement::Return(stmt) => {
-                if self.scope_index == 0 {
+                // A filter action runs in a scope of its own but it is not
+                // a function body: there is no caller to return to.
+                if self.scope_index == 0 || self.filter_scope == Some(self.scope_index) {
                     return Err(CompileError::new(
                         "return statement outside of function",
                         stmt.token.line,
@@ -1252,6 +1257,7 @@ impl Compiler {
     /// the bytecode for the filter statement is captured and stored separately.
     fn compile_filter_statement(&mut self, expr: FilterStmt) -> Result<(), CompileError> {
         self.enter_scope();
+        let outer_filter_scope = self.filter_scope.replace(self.scope_index);
 
         // If there is no filter pattern, and if it is not an 'end' pattern,
         // then the control flow executes the action statement unconditionally.
@@ -1281,6 +1287,7 @@ impl Compiler {
         // Get the number of locals and create the function
         let num_locals = self.symtab.get_num_definitions();
         let instructions = self.leave_scope();
+        self.filter_scope = outer_filter_scope;
         // There are not free variables for the function wrapping a filter
         // The filter statements are compiled as closures that takes no parameters
         let filter = Rc::new(CompiledFunction::new(
